@@ -28,7 +28,7 @@ type c05Conv struct {
 	Lmtp     bool       `json:"lmtp"`
 	MaxBytes int        `json:"maxBytes"`
 	State    string     `json:"state"` // ok | nomail | rcptrej
-	Plan     string     `json:"plan"`  // acc rej early mid1 mid4
+	Plan     string     `json:"plan"`  // acc rej early mid1 mid4 eacc eacc1 eacc4
 	Chunks   []c05Chunk `json:"chunks"`
 	Marker   bool       `json:"marker"` // a NOOP between chunks
 	Prior    int        `json:"prior"`  // octets of an earlier, completed chunked message on the same connection (0: none)
@@ -125,6 +125,11 @@ func (cv *c05Conv) plan(idx int) rec.DataPlan {
 		p.ReadMode = rec.ReadK
 		p.K = map[string]int{"mid1": 1, "mid4": 4}[cv.Plan]
 		p.Err = fmt.Errorf("verdict-%d", idx)
+	case "eacc":
+		p.ReadMode = rec.ReadNone // accepts at once
+	case "eacc1", "eacc4":
+		p.ReadMode = rec.ReadK // accepts after 1 / 4 octets
+		p.K = map[string]int{"eacc1": 1, "eacc4": 4}[cv.Plan]
 	}
 	return p
 }
@@ -337,7 +342,7 @@ func genC05(rng *rand.Rand, n int) []*c05Conv {
 	for i := 0; i < n; i++ {
 		cv := &c05Conv{Lmtp: rng.Intn(3) == 0, Marker: rng.Intn(2) == 0}
 		cv.State = []string{"ok", "ok", "ok", "ok", "nomail", "rcptrej"}[rng.Intn(6)]
-		cv.Plan = []string{"acc", "acc", "rej", "early", "mid1", "mid4"}[rng.Intn(6)]
+		cv.Plan = []string{"acc", "acc", "rej", "early", "mid1", "mid4", "eacc", "eacc1", "eacc4"}[rng.Intn(9)]
 		if rng.Intn(4) == 0 {
 			cv.MaxBytes = 10
 		}
